@@ -177,9 +177,10 @@ def cvc5_check(smt2: str, timeout_s: int) -> str:
         return "unknown"
 
 
-def discharge(ctx: Ctx, ob: Obligation, use_cvc5_always=False) -> dict:
+def discharge(ctx: Ctx, ob: Obligation, use_cvc5_always=False, cheap=False) -> dict:
+    """cheap=True: this family already has unresolved members in this unit -- no retry, no candidate search"""
     t0 = time.time()
-    s = _mk_solver(ctx, ctx.timeout_ms)
+    s = _mk_solver(ctx, ctx.timeout_ms if not cheap else min(ctx.timeout_ms, 3000))
     for h in ob.hyps:
         s.add(h)
     rec: dict[str, Any] = {"name": ob.name, "kind": ob.kind, "backend": "z3-" + z3.get_version_string(), "source": ob.source}
@@ -202,8 +203,8 @@ def discharge(ctx: Ctx, ob: Obligation, use_cvc5_always=False) -> dict:
         rec["ms"] = int((time.time() - t0) * 1000)
         return rec
     s.add(z3.Not(ob.goal))
-    r = guarded_check(s, ctx.timeout_ms)
-    if r == z3.unknown:
+    r = guarded_check(s, ctx.timeout_ms if not cheap else min(ctx.timeout_ms, 3000))
+    if r == z3.unknown and not cheap:
         # one retry with a three times larger budget before the obligation counts as not re-established
         rec["reason_unknown"] = s.reason_unknown()
         s.set("timeout", ctx.timeout_ms * 3)
@@ -227,7 +228,7 @@ def discharge(ctx: Ctx, ob: Obligation, use_cvc5_always=False) -> dict:
             rec["model"] = extract_model(ctx, s.model(), ob.inputs)
         except Exception as e:  # pylint: disable=broad-except
             rec["model_error"] = repr(e)
-    elif verdict in ("unknown", "sat") and ob.replay is not None:
+    elif verdict in ("unknown", "sat") and ob.replay is not None and not cheap:
         # quantified hypotheses keep z3 from confirming satisfiability.  Look for *candidate* counterexamples in a
         # bounded relaxation (index quantifiers instantiated for 0..2, list lengths <= 3, other quantifiers dropped).
         # A candidate counts for nothing unless the native replay confirms it on the real code.
@@ -479,7 +480,14 @@ def run_unit(uid: str, known_findings: dict, timeout_ms: int, both_solvers=False
         ctx.adopt_engine_obligations()
         rec["exec_s"] = round(time.time() - t0, 3)
         rec["functions"] = {k: {"file": v[0], "line": v[1]} for k, v in ctx.ex.functions_seen.items()}
-        rec["obligations"] = [discharge(ctx, ob, both_solvers) for ob in ctx.obligations]
+        rec["obligations"] = []
+        open_families: dict[str, int] = {}
+        for ob in ctx.obligations:
+            fam = ob.name.split("#")[0]
+            r = discharge(ctx, ob, both_solvers, cheap=open_families.get(fam, 0) >= 2)
+            if r["verdict"] not in ("discharged", "reachable"):
+                open_families[fam] = open_families.get(fam, 0) + 1
+            rec["obligations"].append(r)
         rec["samples"] = [sample_smt2(ctx, ob, 2500) for ob in ctx.obligations[:1] if ob.kind not in ("cover", "canary")]
         rec["assumptions"] = ctx.assumptions
         rec["notes"] = ctx.ex.notes
